@@ -13,7 +13,7 @@ import (
 func init() {
 	register(&propDef{
 		id:      "C40",
-		explain: "Structural necessary conditions of 'LBClient routes to the least loaded client, bounds penalties and never panics': (R1) in the selection loop of LBClient.get the selected client and the keys recorded for it (its load and its completed-request total) are replaced together on every path of an iteration - a candidate recorded with the keys of another client makes later comparisons wrong; the selection condition depends on both keys; (E1) penalty pairing: incPenalty keeps one unit exactly when it returns true (it gives the unit back itself when the bound is exceeded, under a comparison with the bound), and the caller schedules exactly one decrement for every unit kept, on every path; (R3) get returns nil exactly when there is no client, every caller tests for nil and reports ErrNoAvailableClients, and no explicit panic is reachable through static calls from the Do* methods. Not decided: optimality of the choice under concurrent updates, timing of the 3 s penalty expiry.",
+		explain: "Structural necessary conditions of 'LBClient routes to the least loaded client, bounds penalties and never panics': (R1) in the selection loop of LBClient.get the selected client and the keys recorded for it (its load and its completed-request total) are replaced together on every path of an iteration - a candidate recorded with the keys of another client makes later comparisons wrong; the selection condition depends on both keys; (E1) penalty pairing: incPenalty keeps one unit exactly when it returns true (it gives the unit back itself when the bound is exceeded, under a comparison with the bound), and the caller schedules exactly one decrement for every unit kept, on every path; (R3) get returns nil exactly when there is no client, every caller tests for nil and reports ErrNoAvailableClients, and no explicit panic is reachable through static calls from the Do* methods. (R4) every assignment of the candidate list LBClient.cs derives from the list's own previous content (append / filter / reslice), so the lazy initialisation cannot drop clients registered through AddClient before the first call. Not decided: optimality of the choice under concurrent updates, timing of the 3 s penalty expiry.",
 		run:     runC40,
 	})
 	register(&propDef{
@@ -344,6 +344,40 @@ func runC40(p *Prog, r *Report) {
 			walk(f, 0)
 		}
 		r.Check("R3", "no explicit panic is reachable from LBClient.Do / DoTimeout / DoDeadline inside lbclient.go", len(panics) == 0 && len(roots) == 3, p.Pos(get.Pos()), "panic statements in: "+joinSorted(panics))
+	}
+	// R4: the candidate list only ever changes from its own previous content. The list is filled lazily on the first
+	// call, after AddClient may already have appended to it: an assignment that does not derive from the list itself
+	// silently drops candidates (an idle client that is never considered, or "no available clients" with one added).
+	{
+		n := 0
+		for _, fn := range p.funcsIn("") {
+			for _, b := range fn.Blocks {
+				for _, in := range b.Instrs {
+					st, ok := in.(*ssa.Store)
+					if !ok {
+						continue
+					}
+					fa, ok := st.Addr.(*ssa.FieldAddr)
+					if !ok || typeNameOf(fa.X) != "LBClient" || fieldName(fa.X.Type(), fa.Field) != "cs" {
+						continue
+					}
+					n++
+					derives := false
+					for _, b2 := range fn.Blocks {
+						for _, in2 := range b2.Instrs {
+							if u, ok := in2.(*ssa.UnOp); ok {
+								if _, fv := loadedField(u); fv != nil && fv == fieldVar(fa.X.Type(), fa.Field) && derivesFromValue(st.Val, u) {
+									derives = true
+								}
+							}
+						}
+					}
+					r.Check("R4", funcName(fn)+": the candidate list is assigned only from its own previous content (append, filter, reslice)", derives, p.Pos(st.Pos()),
+						"LBClient.cs is replaced by a value that does not derive from LBClient.cs: clients registered before (AddClient may run before the lazy initialisation) stop being candidates, so a call is routed to a busier client, or fails with ErrNoAvailableClients, while an idle one exists")
+				}
+			}
+		}
+		r.Floor("R4", "assignments of the LBClient candidate list", n, 3)
 	}
 }
 
